@@ -17,6 +17,7 @@ OPTIONS = ["TAP_TO_FAKE", "DROP_NOTE", "KEEP_NOTE"]
 
 def _setup():
     from vlib import symx
+    symx.FLOAT_FAITHFUL = False      # worker processes are reused: only the *_floats obligations switch it on (after this call)
     return symx, symx.load_shimmed(MODS)
 
 
@@ -81,19 +82,26 @@ def ob_time_notes(shape, G, nnotes, option, budget_s=120):
             kind = kinds[symx.choose(f"kind{i}", len(kinds))]
             col = symx.fresh_int(f"col{i}", 0, 15)
             pl = symx.fresh_int(f"pl{i}", 0, 2)
+            if nnotes == 22:   # one lane: column and player are pinned by case split (code that hashes the lane must not fan out)
+                symx.CTL.assume(col == (symx.choose("lanecol", 2) if i == 0 else meta[0][5]), pl == (symx.choose("lanepl", 2) if i == 0 else meta[0][6]))
             if i:   # note data order: by (player, beat) - a later player's notes start again at low beats (routine charts)
                 symx.CTL.assume(z3.Or(pl > meta[i - 1][3], z3.And(pl == meta[i - 1][3], k >= meta[i - 1][0])))
             has_ks = symx.choose(f"hks{i}", 2) if nnotes == 1 else (1 - i % 2)
-            if nnotes == 22 and i == 1:
-                symx.CTL.assume(col == meta[0][2], pl == meta[0][3])     # same lane as the first note (a head and its tail)
             ks = symx.fresh_int(f"ks{i}", 0, None) if has_ks else None
+            if nnotes == 22:
+                m_ = symx.CTL.current_model()
+                ccol, cpl = m_.eval(col, model_completion=True).as_long(), m_.eval(pl, model_completion=True).as_long()
+                notes.append(Note(beat=Beat(symx.SymInt(k), 48), column=ccol, note_type=NoteType[kind], player=cpl,
+                                  keysound_index=symx.SymInt(ks) if has_ks else None))
+                meta.append((k, kind, col, pl, ks, ccol, cpl))
+                continue
             notes.append(Note(beat=Beat(symx.SymInt(k), 48), column=symx.SymInt(col), note_type=NoteType[kind],
                               player=symx.SymInt(pl), keysound_index=symx.SymInt(ks) if has_ks else None))
             meta.append((k, kind, col, pl, ks))
         out = list(TN.time_notes(notes, td, TN.UnhittableNotes[option]))
         # expectation
         exp = []
-        for i, (k, kind, col, pl, ks) in enumerate(meta):
+        for i, (k, kind, col, pl, ks) in enumerate(mt[:5] for mt in meta):
             hit = symx.CTL.branch(tc.oracle_hittable(V, k))
             if hit or option == "KEEP_NOTE":
                 exp.append((i, kind))
@@ -103,7 +111,7 @@ def ob_time_notes(shape, G, nnotes, option, budget_s=120):
             return False, ("count", len(out), len(exp))
         conds = []
         for tn, (i, kind) in zip(out, exp):
-            k, _, col, pl, ks = meta[i]
+            k, _, col, pl, ks = meta[i][:5]
             n = tn.note
             if type(n) is not Note or n.note_type is not NoteType[kind]:
                 return False, ("type", i, str(n.note_type), kind)
